@@ -213,6 +213,28 @@ def execute(script):
                 stale = parent_id != head_before
                 if stale:
                     res.bump('probe:found_on_older_state')
+                if parent_id not in w.cm.coinstate.block_by_hash:
+                    # the node has rolled the candidate's parent back since the candidate was assembled: the block extends nothing
+                    # the node serves, so the only outcomes the statement allows are "dropped quietly" (and nothing rolled back
+                    # comes back with it)
+                    res.bump('probe:found_on_rolled_back_parent')
+                    ids0 = set(w.cm.coinstate.block_by_hash.keys())
+                    head0 = w.cm.coinstate.current_chain_hash
+                    try:
+                        watcher.handle_received_message(item)
+                        err = None
+                    except Exception as e:
+                        err = e
+                    if err is not None:
+                        res.violate(PROP, 'C12/own-block-rejected', 'the found-block handler raised %s for a candidate whose parent was '
+                                    'rolled back' % type(err).__name__, {'candidate_parent_rolled_back': True, 'error': type(err).__name__})
+                        stop['now'] = True
+                    elif w.cm.coinstate.current_chain_hash != head0 and bid != w.cm.coinstate.current_chain_hash:
+                        res.violate(PROP, 'C12/rolled-back-block-reinstated', 'handling a found block whose parent had been rolled back '
+                                    'changed the served head to a block other than the found one',
+                                    {'reinstated': len(set(w.cm.coinstate.block_by_hash.keys()) - ids0)})
+                        stop['now'] = True
+                    return
                 # (a) the assembled block satisfies every rule at its parent
                 broken = judge_block(chain, cand, now_s, None, consensus.calc_merkle_root_hash, sim.sig_cache)
                 head_ahead = chain.blocks[parent_id].ts - now_s if parent_id in chain.blocks else 0
